@@ -97,7 +97,7 @@ class C14(Prop):
     min_frames = 0
     regions = {'quick': [('all', 200), ('core', 60), ('block', 40), ('routers', 40), ('renege', 40), ('preempt', 40), ('sched', 40), ('schedpre', 40),
                          ('slotted', 30), ('slotted_pre', 20), ('dyn', 40), ('ps', 30), ('renege_preempt', 30), ('prio_reroute', 20), ('sched_reroute', 20),
-                         ('preempt_block', 20), ('sched_block', 20), ('schedpre_block', 20), ('renege_dyn', 30), ('renege_schedpre', 20), ('jsq_preempt', 20), ('sched_dyn', 60), ('core_mix', 40), ('block_mix', 20), ('batch_mix', 30)]}
+                         ('preempt_block', 20), ('sched_block', 20), ('schedpre_block', 20), ('renege_dyn', 30), ('renege_schedpre', 20), ('jsq_preempt', 20), ('sched_dyn', 60), ('core_mix', 40), ('block_mix', 20), ('batch_mix', 30), ('dyn_reroute', 30)]}
     rule = ('one case = one observed run consisting of one to three simulate_until_max_time / simulate_until_max_customers calls (all four '
             'methods, horizons including 0) on a generated network from every feature region; non-trivial = the network combines >= 3 '
             'optional features and >= 5 events were executed; distinct = distinct configuration hashes')
